@@ -18,7 +18,7 @@ DEF_LEAF3 = ('Cmd(%s, << Grp("{", << Cmd(%s, <<>>) >>, <<>>), Grp("{", << Cmd(%s
 
 
 DEF_LEAF4 = ('Cmd(%s, << Grp("{", << Cmd(%s, <<>>) >>, <<>>), Grp("{", << Cmd(%s, << Grp("{", << T(%s) >>, <<>>) >>) >>, <<>>) >>)'
-             % (S('providecommand*'), S('nm'), S('end'), S('e')))
+             % (S('providecommand*'), S('nm'), S('begin'), S('e')))
 
 
 def leaf_cmd(name, *groups):
